@@ -714,3 +714,161 @@ Proof.
     split; [destruct pre; exact D|].
     cbn [app length]. rewrite L. reflexivity.
 Qed.
+
+(* ==== the payload of signed data: handed over = posted ================================================== *)
+Lemma map_id_tx : forall l : list tx, map (fun t : tx => t) l = l.
+Proof. induction l as [|x l IH]; [reflexivity|]. cbn [map]. rewrite IH. reflexivity. Qed.
+
+Lemma txs_eqb_refl : forall l, txs_eqb l l = true.
+Proof. induction l as [|x l IH]; [reflexivity|]. cbn [txs_eqb]. rewrite N.eqb_refl, IH. reflexivity. Qed.
+
+Lemma txs_eqb_eq : forall a b, txs_eqb a b = true <-> a = b.
+Proof.
+  induction a as [|x a IH]; intros [|y b]; cbn [txs_eqb]; split; intro H; try reflexivity; try discriminate.
+  - apply andb_true_iff in H. destruct H as [H1 H2]. apply N.eqb_eq in H1. apply IH in H2. subst. reflexivity.
+  - inversion H; subst. rewrite N.eqb_refl. apply txs_eqb_refl.
+Qed.
+
+(* the codec as it is: decode after encode is the identity on EVERY transaction list, zero-length
+   entries in any position included *)
+Lemma codec_roundtrip : forall l, slices_to_txs DCopyAll (txs_to_slices l) = l.
+Proof. intro l. unfold slices_to_txs, txs_to_slices. rewrite !map_id_tx. reflexivity. Qed.
+
+Lemma decode_copyall : forall sp, decode_sd DCopyAll sp = sp_wire sp.
+Proof. intro sp. unfold decode_sd, slices_to_txs. apply map_id_tx. Qed.
+
+(* the payload-level handler refines the class-level one, whatever the decoder does *)
+Lemma phandle_erase : forall m c daH posts,
+  map erase (phandle m c daH posts) = genuine_events c daH (map (classify m) posts).
+Proof.
+  intros m c daH. induction posts as [|p r IH]; [reflexivity|].
+  cbn [phandle map genuine_events flat_map]. fold (genuine_events c daH (map (classify m) r)). rewrite <- IH.
+  destruct p as [id|sp|k]; cbn [classify].
+  - destruct (mem id (c_seen_h c)); reflexivity.
+  - unfold classify_sd. destruct (decode_sd m sp) as [|t ts]; [reflexivity|].
+    destruct (sp_meta sp); cbn [negb]; [|reflexivity].
+    destruct (sig_valid sp (t :: ts)); cbn [negb]; [|reflexivity].
+    destruct (mem (sp_id sp) (c_seen_d c)); reflexivity.
+  - reflexivity.
+Qed.
+
+Lemma sig_valid_genuine : forall sp t ts, sp_wire sp = t :: ts -> sp_meta sp = true ->
+  sig_valid sp (t :: ts) = genuineb sp.
+Proof.
+  intros sp t ts Hw Hm. unfold sig_valid, genuineb, txs_to_slices. rewrite map_id_tx, Hw, Hm.
+  destruct (sp_signer sp); cbn [andb]; reflexivity.
+Qed.
+
+(* with the decoder as it is, what is handed over is exactly what was posted *)
+Lemma phandle_posted : forall c daH posts, phandle DCopyAll c daH posts = posted_events c daH posts.
+Proof.
+  intros c daH. induction posts as [|p r IH]; [reflexivity|].
+  cbn [phandle posted_events flat_map]. fold (posted_events c daH r). rewrite IH.
+  destruct p as [id|sp|k].
+  - destruct (mem id (c_seen_h c)); reflexivity.
+  - rewrite decode_copyall. destruct (sp_wire sp) as [|t ts] eqn:Hw.
+    + unfold genuineb. rewrite Hw, !andb_false_r. reflexivity.
+    + destruct (sp_meta sp) eqn:Hm; cbn [negb].
+      * rewrite (sig_valid_genuine sp t ts Hw Hm).
+        destruct (genuineb sp); cbn [negb andb]; [|reflexivity].
+        destruct (mem (sp_id sp) (c_seen_d c)); reflexivity.
+      * unfold genuineb. rewrite Hm, andb_false_r. reflexivity.
+  - reflexivity.
+Qed.
+
+Lemma genuine_admitted_thm : forall sp, genuineb sp = true ->
+  classify_sd DCopyAll sp = BData (sp_id sp) /\ decode_sd DCopyAll sp = sp_wire sp.
+Proof.
+  intros sp Hg. split; [|apply decode_copyall].
+  unfold classify_sd. rewrite decode_copyall.
+  pose proof Hg as Hg'. unfold genuineb in Hg'.
+  apply andb_true_iff in Hg'. destruct Hg' as [Hg' _]. apply andb_true_iff in Hg'. destruct Hg' as [Hg' Hne].
+  apply andb_true_iff in Hg'. destruct Hg' as [_ Hm].
+  destruct (sp_wire sp) as [|t ts] eqn:Hw; [discriminate|].
+  rewrite Hm. cbn [negb]. rewrite (sig_valid_genuine sp t ts Hw Hm), Hg. reflexivity.
+Qed.
+
+Lemma content_da_of : forall m c pda n, content c (da_of m pda) n = map (classify m) (pcontent c pda n).
+Proof.
+  intros m c pda n. unfold content, pcontent. destruct (n <? boot c); [reflexivity|].
+  unfold da_of. rewrite map_map. cbn [h_blobs].
+  rewrite <- (map_map hp_posts (map (classify m))).
+  change (@nil blob) with (map (classify m) []). rewrite map_nth. reflexivity.
+Qed.
+
+(* per iteration: erasing the payload of what is handed over gives the iteration's events (any decoder);
+   with the decoder as it is, what is handed over is what was posted *)
+Lemma handed_rec : forall m c pda r,
+  i_events r = (if succeeded (i_classes r) then genuine_events c (i_height r) (content c (da_of m pda) (i_height r)) else []) ->
+  map erase (handed m c pda r) = i_events r.
+Proof.
+  intros m c pda r He. unfold handed. rewrite He.
+  destruct (succeeded (i_classes r)); [|reflexivity].
+  rewrite phandle_erase, content_da_of. reflexivity.
+Qed.
+
+Lemma handed_posted : forall c pda r,
+  handed DCopyAll c pda r =
+  (if succeeded (i_classes r) then posted_events c (i_height r) (pcontent c pda (i_height r)) else []).
+Proof. intros c pda r. unfold handed. rewrite phandle_posted. reflexivity. Qed.
+
+Lemma handed_ok_of_emits : forall c pda r,
+  emits_ok c r /\ i_blobs r = content c (da_of DCopyAll pda) (i_height r) -> handed_ok c pda r.
+Proof.
+  intros c pda r [He Hb]. unfold handed_ok. split; [rewrite Hb; apply content_da_of|].
+  split; [|apply handed_posted].
+  apply handed_rec. unfold emits_ok in He. rewrite He, Hb. reflexivity.
+Qed.
+
+Lemma hands_over_thm : forall c pda h,
+  Forall (handed_ok c pda) (iterations c (da_of DCopyAll pda) h).
+Proof.
+  intros c pda h. eapply Forall_impl; [|apply emits_thm]. intros r H. apply handed_ok_of_emits. exact H.
+Qed.
+
+Lemma payload_no_skip_thm : forall c pda h n,
+  boot c <= n < s_cursor (final c (da_of DCopyAll pda) h) ->
+  exists r, In r (iterations c (da_of DCopyAll pda) h) /\ i_height r = n /\ i_next r = n + 1 /\
+            i_loop r = true /\ i_result r = PNil /\
+            (last (i_classes r) AError = ASuccess \/ last (i_classes r) AError = ANotFound) /\
+            map erase (handed DCopyAll c pda r) = i_events r /\
+            handed DCopyAll c pda r = (if succeeded (i_classes r) then posted_events c n (pcontent c pda n) else []).
+Proof.
+  intros c pda h n Hn.
+  destruct (no_skip_thm c (da_of DCopyAll pda) h n Hn) as (r & Hin & Hh & Hnx & Hl & Hr & Hc & He).
+  exists r. repeat (split; [assumption|]).
+  pose proof (proj1 (Forall_forall _ _) (hands_over_thm c pda h) r Hin) as (_ & H1 & H2).
+  rewrite Hh in H2. split; assumption.
+Qed.
+
+Lemma ticks_hands_over_thm : forall c pda tick ts,
+  Forall (handed_ok c pda) (literations RNonBlocking c (linit c (da_of DCopyAll pda) tick) ts).
+Proof.
+  intros c pda tick ts.
+  destruct (ticks_cursor_thm c (da_of DCopyAll pda) tick ts) as (_ & _ & Hem & _).
+  eapply Forall_impl; [|exact Hem]. intros r H. apply handed_ok_of_emits. exact H.
+Qed.
+
+Lemma ticks_payload_no_skip_thm : forall c pda tick ts n,
+  boot c <= n < s_cursor (l_scan (fst (lrun RNonBlocking c (linit c (da_of DCopyAll pda) tick) ts))) ->
+  exists r, In r (literations RNonBlocking c (linit c (da_of DCopyAll pda) tick) ts) /\ i_height r = n /\ i_next r = n + 1 /\
+            i_loop r = true /\ i_result r = PNil /\
+            (last (i_classes r) AError = ASuccess \/ last (i_classes r) AError = ANotFound) /\
+            map erase (handed DCopyAll c pda r) = i_events r /\
+            handed DCopyAll c pda r = (if succeeded (i_classes r) then posted_events c n (pcontent c pda n) else []).
+Proof.
+  intros c pda tick ts n Hn.
+  destruct (ticks_no_skip_thm c (da_of DCopyAll pda) tick ts n Hn) as (r & Hin & Hh & Hnx & Hl & Hr & Hc & He).
+  exists r. repeat (split; [assumption|]).
+  pose proof (proj1 (Forall_forall _ _) (ticks_hands_over_thm c pda tick ts) r Hin) as (_ & H1 & H2).
+  rewrite Hh in H2. split; assumption.
+Qed.
+
+(* a genuine, unseen data blob among the posts is among the posted events, with its transaction list *)
+Lemma posted_events_in : forall c daH posts sp,
+  In (PSigned sp) posts -> genuineb sp = true -> mem (sp_id sp) (c_seen_d c) = false ->
+  In (PEData (sp_id sp) daH (sp_wire sp)) (posted_events c daH posts).
+Proof.
+  intros c daH posts sp Hin Hg Hs. unfold posted_events. apply in_flat_map.
+  exists (PSigned sp). split; [exact Hin|]. rewrite Hg, Hs. left. reflexivity.
+Qed.
